@@ -1,7 +1,14 @@
 package c07
 
 import (
+	"context"
+	"fmt"
+	"sync"
 	"testing"
+	"testing/synctest"
+	"time"
+
+	"github.com/cilium/statedb"
 
 	"verifharness/concw"
 	"verifharness/dbsim"
@@ -31,5 +38,125 @@ func TestVerifRace_Consumers(t *testing.T) {
 		"strictly increasing revisions, replay == the snapshot passed to Next whenever it was drained, final convergence, blocked consumers woken by every later commit; non-trivial = changes were delivered; distinct = (seed, case)")
 	r.Require("changes_delivered", "drain_checks")
 	r.ParallelCases(vkit.N(12, 300), 2, func(i int) { concw.RunConsumers(r, i, false) })
+	r.Finish()
+}
+
+// Observable: the stream adapter is driven by the same kind of histories; at every quiescent point (virtual time) the replay of the
+// observed events must equal the table.
+func TestVerif_Observable(t *testing.T) {
+	r := vkit.Start(t, "C07", "observable", "exploration", "statedb.Observable under virtual time: random committed and aborted write transactions (inserts, updates, deletes) with pauses; at every quiescent point "+
+		"the replay of all observed events equals the table contents (objects and revisions), revisions are strictly increasing, nothing uncommitted is observed; non-trivial = at least 5 events observed; distinct = hash of the operation log")
+	r.Require("events_observed", "quiescent_checks")
+	n := vkit.N(400, 20000)
+	for c := 0; c < n; c++ {
+		if part, idx, ok := vkit.ReplayCase(); ok && !(part == "observable" && idx == c) {
+			continue
+		}
+		rng := r.Rand(c)
+		h := vkit.NewHash()
+		events := 0
+		synctest.Test(t, func(t *testing.T) {
+			db := statedb.New()
+			db.VerifSetGCInterval(time.Millisecond)
+			db.Start()
+			defer db.Stop()
+			tbl := concw.NewTables(db, "o", 1)[0]
+			ctx, cancel := context.WithCancel(context.Background())
+			type ev struct {
+				id  string
+				v   int64
+				rev uint64
+				del bool
+			}
+			var mu sync.Mutex
+			var got []ev
+			done := make(chan struct{})
+			statedb.Observable[*concw.Row](db, tbl).Observe(ctx, func(ch statedb.Change[*concw.Row]) {
+				mu.Lock()
+				got = append(got, ev{ch.Object.ID, ch.Object.V, ch.Revision, ch.Deleted})
+				mu.Unlock()
+			}, func(error) { close(done) })
+			model := map[string]int64{}
+			var log []string
+			steps := 10 + rng.IntN(30)
+			for s := 0; s < steps; s++ {
+				w := db.WriteTxn(tbl)
+				tm := map[string]int64{}
+				for k, v := range model {
+					tm[k] = v
+				}
+				for k := 0; k < 1+rng.IntN(3); k++ {
+					id := fmt.Sprint(rng.IntN(6))
+					if rng.IntN(3) == 0 {
+						tbl.Delete(w, &concw.Row{ID: id})
+						delete(tm, id)
+						log = append(log, "del "+id)
+					} else {
+						v := int64(s*10 + k + 1)
+						tbl.Insert(w, &concw.Row{ID: id, V: v})
+						tm[id] = v
+						log = append(log, fmt.Sprintf("ins %s=%d", id, v))
+					}
+				}
+				if rng.IntN(5) == 0 {
+					w.Abort()
+					log = append(log, "abort")
+				} else {
+					w.Commit()
+					model = tm
+					log = append(log, "commit")
+				}
+				if rng.IntN(3) == 0 {
+					time.Sleep(time.Duration(rng.IntN(4)) * time.Millisecond)
+					synctest.Wait()
+					// quiescent: replay == table
+					mu.Lock()
+					replay := map[string]ev{}
+					var last uint64
+					for _, e := range got {
+						if e.rev <= last {
+							r.Violation("observable/not-increasing", c, map[string]any{"message": fmt.Sprintf("event revision %d after %d", e.rev, last), "log": log})
+						}
+						last = e.rev
+						if e.del {
+							delete(replay, e.id)
+						} else {
+							replay[e.id] = e
+						}
+					}
+					mu.Unlock()
+					rt := db.ReadTxn()
+					cnt := 0
+					for row, rev := range tbl.All(rt) {
+						cnt++
+						if e, ok := replay[row.ID]; !ok || e.v != row.V || e.rev != rev || model[row.ID] != row.V {
+							r.Violation("observable/replay-differs", c, map[string]any{"message": fmt.Sprintf("at a quiescent point the replay of %s is %+v (present=%v), table has v=%d rev=%d, model %d", row.ID, e, ok, row.V, rev, model[row.ID]), "log": log})
+						}
+					}
+					if cnt != len(replay) {
+						r.Violation("observable/replay-differs", c, map[string]any{"message": fmt.Sprintf("at a quiescent point the replay has %d objects, the table %d", len(replay), cnt), "log": log})
+					}
+					r.Count("quiescent_checks", 1)
+				}
+			}
+			cancel()
+			// one more commit wakes the observer so that it notices the cancellation
+			w := db.WriteTxn(tbl)
+			tbl.Insert(w, &concw.Row{ID: "bye"})
+			w.Commit()
+			<-done
+			mu.Lock()
+			events = len(got)
+			mu.Unlock()
+			for _, l := range log {
+				h.Str(l)
+			}
+			if r.WantSample() {
+				r.Sample(map[string]any{"case": c, "ops": log[:min(len(log), 30)], "events": events})
+			}
+		})
+		r.Count("events_observed", int64(events))
+		r.Case(h.Sum(), events >= 5)
+	}
 	r.Finish()
 }
